@@ -30,6 +30,9 @@ def instances(tier):
     for d in ((0, 1, 2, 3, 4, 5, 7, 8, 11, 13, 15) if tier == "quick" else (0, 1, 2, 3, 4, 5, 6, 7, 8, 11, 12, 13, 15)):   # divisors 9, 10 (+-(2^48-1)) and 14 (-(2^32)+1): no verdict in 1500 s
         L.append(Inst("sdiv128-div%d" % d, "C11/matrix.c", {"MODE": 4, "DIVSEL": d}, timeout=1500 if tier == "thorough" else 400, **kw,
                       desc={"what": "rounded_sdiv_128_by_49 with a concrete divisor (incl. +-2^48), 126-bit symbolic dividend: nearest quotient"}))
+    for m, w in (((0, 0), (1, 1), (0, 3), (1, 2), (0, 4)) if tier == "quick" else [(m, w) for m in (0, 1) for w in range(8)]):
+        L.append(Inst("homogeneous-mat%d-w%d" % (m, w), "C11/matrix.c", {"MODE": 8, "MAT_SEL": m, "WSEL": w}, timeout=1500 if tier == "thorough" else 600, **kw,
+                      desc={"what": "transform_point, bottom row (0 0 1), vector w from a menu (2, 0.5, -1, 0, 1/65536, 3, ...), x/y symbolic: result == (M v)/w nearest, FALSE iff w == 0 or unrepresentable"}))
     L.append(Inst("constructors-translate-scale", "C11/matrix.c", {"MODE": 5}, **kw,
                   desc={"what": "init_translate/scale/rotate/identity shapes; translate forward/reverse; zero scale refused"}))
     L.append(Inst("fixed-double-conversions", "C11/matrix.c", {"MODE": 7}, timeout=900, **kw,
